@@ -12,3 +12,6 @@ if REPO not in sys.path:
     sys.path.insert(0, REPO)
 
 VERIF = os.path.dirname(os.path.dirname(os.path.abspath(__file__)))
+
+import warnings as _w
+_w.simplefilter('ignore')
